@@ -113,10 +113,23 @@ pub fn wopts(level: u32, exponent: u8) -> Vec<WOpt> {
             }
         }
     }
+    // punctuation block: a decimal point other than '.' with and without digit control / trimming
+    for &max in &[None, Some(3usize)] {
+        for &min in &[None, Some(7usize)] {
+            if let (Some(a), Some(b)) = (max, min) {
+                if b > a {
+                    continue;
+                }
+            }
+            for trim in [false, true] {
+                v.push(WOpt { max, min, truncate: false, trim, pos_break: None, neg_break: None, point: b',', exponent });
+            }
+        }
+    }
     // boundary block: breaks inside the float range combined with many minimum digits, where the
     // documented buffer bound has no slack (value exponent == break, negative sign)
     for &neg_break in &[None, Some(-13), Some(-20), Some(-300)] {
-        for &min in &[Some(28usize), Some(64), Some(100)] {
+        for &min in &[Some(28usize), Some(64), Some(100), Some(300)] {
             v.push(WOpt { max: None, min, truncate: false, trim: false, pos_break: None, neg_break, point: b'.', exponent });
         }
     }
